@@ -185,6 +185,10 @@ def run(ctx):
     r8 = ctx.rule('R8', 'continue-on / break-on see what the attempt has '
                   'just published', 'AGREE (lookup order)')
     shared.expression_context_order(ctx, r8)
+    from mstatic.rules import completion
+    r9 = ctx.rule('R9', 'a task held DELAYED by retry / wait-after does not '
+                  'start its follow-up tasks (shared with C01.R17)', 'GD')
+    completion.task_complete_followup(ctx, r9)
 
 
 def _run(ctx):
